@@ -48,6 +48,12 @@ pub fn c16_q_write_pure_and_equals_stateful() {
     let other: u64 = kani::any();
     let mut scratch = [0u8; M];
     let _ = a.write_message(other, &p[..l], &mut scratch);
+    // ... nor a read of arbitrary bytes (accepted or not), nor a write that fails for lack of room
+    let g: [u8; M] = kani::any();
+    let mut gout = [0u8; L];
+    let _ = a.read_message(other, &g, &mut gout);
+    let mut tiny = [0u8; 2];
+    let _ = a.write_message(n, &p[..l], &mut tiny);
     let r2 = a.write_message(n, &p[..l], &mut m2);
     kani::cover!(r1 == Ok(l + 16), "C16 write reachable");
     assert!(r1 == Ok(l + 16) && r2 == r1, "C16: stateless write result is not a function of its arguments");
@@ -86,4 +92,40 @@ pub fn c16_q_roundtrip_any_order() {
     assert!(r1 == Ok(L) && o1 == p1, "C16: message written under n is not read back under n");
     assert!(r2 == Ok(L) && o2 == p2, "C16: message written under n is not read back under n (reverse order)");
     assert!(r3 == Ok(L) && o3 == p2, "C16: repeated stateless read differs");
+}
+
+const BIG: usize = 66000;
+static ZEROS: [u8; BIG] = [0u8; BIG];
+
+/// Every payload length the limit allows (0..=65519), every nonce: the stateless write yields payload + 16 bytes, exactly
+/// the length the stateful sender yields, and the stateless peer's read of a genuine message of that length returns the
+/// payload length - also into an exact-fit buffer. Length-only oracle cipher (accepts: the message is the genuine one).
+#[kani::proof]
+#[kani::unwind(20)]
+pub fn c16_q_any_length_any_nonce() {
+    let initiator: bool = kani::any();
+    let n: u64 = kani::any();
+    kani::assume(n != u64::MAX);
+    let plen: usize = kani::any();
+    kani::assume(plen <= 65535 - 16);
+    unsafe {
+        O_COPY = false;
+        O_DEC_VERDICT[1] = true;
+        O_DEC_VERDICT[2] = true;
+    }
+    let a = StatelessTransportState::verif_from_parts(Box::new(OCipher::<1>), Box::new(OCipher::<2>), HandshakePattern::NN, 4, [0u8; MAXDHLEN], false, initiator);
+    let b = StatelessTransportState::verif_from_parts(Box::new(OCipher::<1>), Box::new(OCipher::<2>), HandshakePattern::NN, 4, [0u8; MAXDHLEN], false, !initiator);
+    let (ni, nr) = if initiator { (n, 0) } else { (0, n) };
+    let mut st = TransportState::verif_from_parts(Box::new(OCipher::<1>), ni, Box::new(OCipher::<2>), nr, HandshakePattern::NN, 4, [0u8; MAXDHLEN], false, initiator);
+    let mut buf = [0u8; BIG];
+    let w = a.write_message(n, &ZEROS[..plen], &mut buf);
+    let ws = st.write_message(&ZEROS[..plen], &mut buf);
+    kani::cover!(w == Ok(65535), "C16 largest message reachable");
+    assert!(w == Ok(plen + 16), "C16: stateless write of a payload within the limit must yield payload + 16 bytes");
+    assert!(ws == w, "C16: stateless and stateful senders disagree on the message length");
+    let exact: bool = kani::any();
+    let cap = if exact { plen } else { BIG };
+    let mut out = [0u8; BIG];
+    let r = b.read_message(n, &ZEROS[..plen + 16], &mut out[..cap]);
+    assert!(r == Ok(plen), "C16: a genuine message written under nonce n is not read back under n (some length / buffer size)");
 }
